@@ -50,16 +50,28 @@ theorem c12_approval_steps_never_deadlock (thrs : List Lock.Thr)
   rw [← c12_approval_edges_are_the_extracted_ones] at h
   exact ranked_edges_no_deadlock _ _ c12_approval_lock_order_ranked thrs h
 
-/-- non-vacuity: a verdict holding muxWriteReceived and asking for muxResponseCB next to a clean-up holding
-    muxResponseCB respects the table of the unchanged tree and is within the mutexes of FeatureLocal -/
-example :
-    let thrs : List Lock.Thr := [⟨[13], some 12⟩, ⟨[12], none⟩]
-    ApprL.Within Generated.ApprovalLocks.mutexes thrs ∧ RespectsEdges Generated.Locks.lockEdges thrs := by
+/-- non-vacuity (independent of how the mutexes are numbered): there is nesting among the mutexes of FeatureLocal, and
+    for every extracted edge (h, m) the state "a verdict holds h and asks for m, a clean-up holds m" is within those
+    mutexes and respects C17's table -/
+example : Generated.ApprovalLocks.edges ≠ [] ∧
+    ∀ e ∈ Generated.ApprovalLocks.edges, e.1 ∈ Generated.ApprovalLocks.mutexes ∧ e.2 ∈ Generated.ApprovalLocks.mutexes ∧
+      e ∈ Generated.Locks.lockEdges := by decide +kernel
+
+example (h m : Nat) (hh : h ∈ Generated.ApprovalLocks.mutexes) (hm : m ∈ Generated.ApprovalLocks.mutexes)
+    (he : (h, m) ∈ Generated.Locks.lockEdges) :
+    ApprL.Within Generated.ApprovalLocks.mutexes [⟨[h], some m⟩, ⟨[m], none⟩] ∧
+    RespectsEdges Generated.Locks.lockEdges [⟨[h], some m⟩, ⟨[m], none⟩] := by
   refine ⟨?_, ?_⟩
-  · intro t ht; simp at ht; rcases ht with rfl | rfl <;> decide
-  · intro t ht; simp at ht; rcases ht with rfl | rfl
-    · show ∀ h ∈ [13], (h, 12) ∈ Generated.Locks.lockEdges
-      decide +kernel
+  · intro t ht
+    simp only [List.mem_cons, List.mem_nil_iff, or_false] at ht
+    rcases ht with rfl | rfl
+    · exact ⟨by intro x hx; simp at hx; exact hx ▸ hh, by intro x hx; injection hx with hx; exact hx ▸ hm⟩
+    · exact ⟨by intro x hx; simp at hx; exact hx ▸ hm, by intro x hx; cases hx⟩
+  · intro t ht
+    simp only [List.mem_cons, List.mem_nil_iff, or_false] at ht
+    rcases ht with rfl | rfl
+    · show ∀ x ∈ [h], (x, m) ∈ Generated.Locks.lockEdges
+      intro x hx; simp at hx; exact hx ▸ he
     · trivial
 
 /-- … ⇒ every pending write gets an outcome in every schedule: with the steps able to run, the model-level progress
